@@ -334,7 +334,21 @@ type vReplayFile struct {
 }
 
 // vSetVars sets the integer bound variables of the harnesses.
+var vVarDefaults map[string]int
+
+// vSetVars gives the bound variables the values of ONE harness run: every
+// variable first returns to its source default, so that nothing leaks from the
+// harness replayed before it in the same process.
 func vSetVars(vars map[string]string) {
+	if vVarDefaults == nil {
+		vVarDefaults = map[string]int{}
+		for k, p := range vVars {
+			vVarDefaults[k] = *p
+		}
+	}
+	for k, p := range vVars {
+		*p = vVarDefaults[k]
+	}
 	for k, v := range vars {
 		if p, ok := vVars[k]; ok {
 			var n int
